@@ -111,14 +111,17 @@ type Scenario struct {
 	// of the stream's namespace to it through mux.Handle) | getters (a handler
 	// that selects through the exported ServeMux.IQHandler / MessageHandler /
 	// PresenceHandler / Handler and calls what they return).
-	MuxVia   string    `json:"mux_via,omitempty"`
+	MuxVia string `json:"mux_via,omitempty"`
 	// ReqOnly (mux-reg only): for the payload of an incoming result/error IQ the
 	// multiplexer has handlers under the request types (get and set) only, of
 	// the kind several library packages register: they answer whatever they are
 	// handed without looking at its type.  A response must not reach them.
-	ReqOnly  bool      `json:"req_only,omitempty"`
-	Input    []string  `json:"input"` // raw top-level elements (and white space) sent by the peer
-	Programs []Program `json:"programs"`
+	ReqOnly bool `json:"req_only,omitempty"`
+	// ReuseStart: the handler given to Serve overwrites the start element it was
+	// handed (name and attributes) before it returns.
+	ReuseStart bool      `json:"handler_reuses_start_element,omitempty"`
+	Input      []string  `json:"input"` // raw top-level elements (and white space) sent by the peer
+	Programs   []Program `json:"programs"`
 	// AppSends: the application transmits elements of its own while the stream
 	// is served (synchronously at the start of the given invocation, when the
 	// serve loop does not hold the output lock; At < 0: before Serve starts).
@@ -488,6 +491,9 @@ func gen(r *rand.Rand) Scenario {
 	}
 	if sc.Mode == "mux-reg" && r.Intn(3) == 0 {
 		sc.ReqOnly = true
+	}
+	if r.Intn(6) == 0 {
+		sc.ReuseStart = true
 	}
 	o := sess.Opts{S2S: sc.S2S, Received: sc.Received, Local: sc.Local}
 	local := o.Local
@@ -1228,7 +1234,15 @@ func build(c *core.Case, sc Scenario) (p *sess.Pair, st *runState, outer xmpp.Ha
 			return nil
 		}
 		st.invoked[st.cur] = true
-		return inner.HandleXMPP(rw, start)
+		err := inner.HandleXMPP(rw, start)
+		if sc.ReuseStart {
+			// the start element belongs to the handler once it has been handed
+			// over: this one reuses it (as code that decodes the payload into it,
+			// or renames it before forwarding, would)
+			start.Name = xml.Name{Space: "urn:c07:reused", Local: "payload"}
+			start.Attr = start.Attr[:0]
+		}
+		return err
 	})
 	if sc.Mode == "serve-nil" {
 		outer = nil
@@ -1391,6 +1405,9 @@ func Run(c *core.Case, sc Scenario) {
 	}
 	c.Count("streams", 1)
 	c.Count("mode_"+sc.Mode, 1)
+	if sc.ReuseStart {
+		c.Count("streams_whose_handler_overwrites_the_start_element", 1)
+	}
 	if sc.MuxVia != "" {
 		c.Count("mux_via_"+sc.MuxVia+"_"+sc.Mode, 1)
 	}
